@@ -26,17 +26,19 @@ pub const ID: &str = "C15";
 
 /// (program name in the pool, history at which the save is taken)
 fn save_points() -> Vec<(&'static str, Vec<Op>)> {
+    // (the quick tier takes the first six: several flows, threads, a function frame, pending
+    // choices, lists, a tunnel)
     vec![
-        ("lines", vec![Op::Cont]),
-        ("funcs", vec![Op::Cont, Op::Cont, Op::Cont]),
-        ("tunnels", vec![Op::Cont, Op::Cont, Op::Cont]),
+        ("flows", vec![Op::Cont, Op::SwitchFlow("f1".into()), Op::ChoosePath("flow_a".into(), false), Op::Cont, Op::Cont, Op::SwitchFlow("f2".into()), Op::ChoosePath("flow_b".into(), false), Op::Cont]),
         ("threads", vec![Op::Cont, Op::Cont, Op::Cont]),
-        ("thread_tunnel", vec![Op::Cont, Op::Cont, Op::Cont]),
+        ("funcs", vec![Op::Cont, Op::Cont, Op::Cont]),
+        ("choices", vec![Op::Cont, Op::Choose(0), Op::Cont, Op::Cont, Op::Cont]),
         ("lists", vec![Op::Cont, Op::Cont]),
+        ("tunnels", vec![Op::Cont, Op::Cont, Op::Cont]),
+        ("lines", vec![Op::Cont]),
+        ("thread_tunnel", vec![Op::Cont, Op::Cont, Op::Cont]),
         ("vardivert", vec![Op::Cont]),
         ("fallback_pending", vec![Op::Cont]),
-        ("choices", vec![Op::Cont, Op::Choose(0), Op::Cont, Op::Cont, Op::Cont]),
-        ("flows", vec![Op::Cont, Op::SwitchFlow("f1".into()), Op::ChoosePath("flow_a".into(), false), Op::Cont, Op::Cont, Op::SwitchFlow("f2".into()), Op::ChoosePath("flow_b".into(), false), Op::Cont]),
         ("shuffle", vec![Op::Cont, Op::Cont]),
         ("strings", vec![Op::Cont]),
     ]
@@ -52,6 +54,62 @@ pub struct Base {
     pub doc: Value,
     pub doc_text: String,
     pub paths: Vec<Vec<PathSeg>>,
+    /// content-path strings in the document: (node, which numeric component, replacement index)
+    pub path_edits: Vec<(usize, usize, usize)>,
+}
+
+/// every numeric component of every dotted path string x the indices 0..=12 and 9999: a content
+/// path whose index is at, just past or far past the end of the container it addresses
+fn path_edits(doc: &Value, paths: &[Vec<PathSeg>]) -> Vec<(usize, usize, usize)> {
+    let mut v = vec![];
+    for (pi, p) in paths.iter().enumerate() {
+        let mut cur = doc;
+        for seg in p {
+            cur = match seg {
+                PathSeg::Key(k) => &cur[k],
+                PathSeg::Idx(i) => &cur[*i],
+            };
+        }
+        if let Some(s) = cur.as_str() {
+            if s.starts_with('^') || s.contains(' ') {
+                continue; // story text, not a path
+            }
+            let comps: Vec<&str> = s.split('.').collect();
+            if comps.len() < 2 {
+                continue;
+            }
+            for (ci, c) in comps.iter().enumerate() {
+                if !c.is_empty() && c.chars().all(|ch| ch.is_ascii_digit()) {
+                    for val in (0..=12).chain([9999]) {
+                        if c.parse::<usize>().ok() != Some(val) {
+                            v.push((pi, ci, val));
+                        }
+                    }
+                }
+            }
+        }
+    }
+    v
+}
+
+fn apply_path_edit(b: &Base, k: usize) -> Option<(String, String, String)> {
+    let (pi, ci, val) = *b.path_edits.get(k)?;
+    let mut d = b.doc.clone();
+    let mut cur = &mut d;
+    for seg in &b.paths[pi] {
+        cur = match seg {
+            PathSeg::Key(k) => cur.get_mut(k)?,
+            PathSeg::Idx(i) => cur.get_mut(*i)?,
+        };
+    }
+    let s = cur.as_str()?.to_string();
+    let mut comps: Vec<String> = s.split('.').map(|c| c.to_string()).collect();
+    comps[ci] = val.to_string();
+    let new = comps.join(".");
+    *cur = Value::String(new.clone());
+    let ptr = mutate::path_to_string(&b.paths[pi]);
+    let cls = mutate::path_class(&b.paths[pi]);
+    Some((format!("{cls}:path-index"), format!("path string at {ptr}: {s:?} -> {new:?}"), d.to_string()))
 }
 
 pub struct Space {
@@ -78,7 +136,8 @@ pub fn space(tier: Tier) -> Space {
             && let Ok(doc) = serde_json::from_str::<Value>(&p.json)
         {
             let paths = mutate::json_paths(&doc);
-            bases.push(Base { kind: "story", name: name.to_string(), program_json: p.json.clone(), doc_text: p.json.clone(), doc, paths });
+            let path_edits = path_edits(&doc, &paths);
+            bases.push(Base { kind: "story", name: name.to_string(), program_json: p.json.clone(), doc_text: p.json.clone(), doc, paths, path_edits });
         }
     }
     for (name, hist) in save_points().into_iter().take(n_save) {
@@ -90,13 +149,15 @@ pub fn space(tier: Tier) -> Space {
             && let Ok(doc) = serde_json::from_str::<Value>(&save)
         {
             let paths = mutate::json_paths(&doc);
-            bases.push(Base { kind: "save", name: name.to_string(), program_json: p.json.clone(), doc_text: save, doc, paths });
+            let path_edits = path_edits(&doc, &paths);
+            bases.push(Base { kind: "save", name: name.to_string(), program_json: p.json.clone(), doc_text: save, doc, paths, path_edits });
         }
     }
     let mut fams = vec![];
     for (bi, b) in bases.iter().enumerate() {
         fams.push((bi, "mutate", b.paths.len() * (4 + mutate::json_retypes().len())));
         fams.push((bi, "truncate", b.doc_text.chars().count()));
+        fams.push((bi, "path-index", b.path_edits.len()));
     }
     let mut bombs = vec![];
     for depth in [100usize, 1_000, 10_000, 100_000] {
@@ -130,6 +191,10 @@ impl Space {
                 "mutate" => {
                     let m = mutate::json_mutation_nth(&b.doc, &b.paths, idx)?;
                     Some((b.kind.to_string(), b.name.clone(), m.class, m.desc, m.doc.to_string(), b.program_json.clone()))
+                }
+                "path-index" => {
+                    let (class, desc, text) = apply_path_edit(b, idx)?;
+                    Some((b.kind.to_string(), b.name.clone(), class, desc, text, b.program_json.clone()))
                 }
                 _ => {
                     let end = b.doc_text.char_indices().nth(idx).map(|(p, _)| p).unwrap_or(b.doc_text.len());
@@ -196,8 +261,10 @@ pub fn judge(kind: &str, text: &str, program_json: &str) -> (String, Vec<(String
             Err(_) => {}
             Ok(_) => {
                 let (_t, p) = play_transcript(&prog, &[], 4);
-                if let Some(p) = p {
-                    viol.push((format!("panic/play-after-load/{p}"), format!("playing an accepted (damaged) story panicked: {p}")));
+                if p.is_some() {
+                    // beyond the property (it speaks of constructing and loading, and of playing
+                    // after a FAILED load): counted, not judged
+                    status.push_str("beyond:play-panic ");
                 }
             }
         }
@@ -228,12 +295,13 @@ pub fn judge(kind: &str, text: &str, program_json: &str) -> (String, Vec<(String
                 } else {
                     // accepted: playing on must not panic
                     let (_t, p) = play_transcript(&prog, &load, 3);
-                    if let Some(p) = p {
-                        viol.push((format!("panic/play-after-load/{p}"), format!("playing after an accepted (damaged) save panicked: {p}")));
+                    if p.is_some() {
+                        status.push_str(" beyond:play-panic");
                     }
                     let o = inst.observe(true);
-                    if let Some(d) = o.get("dead").and_then(|d| d.as_str()) {
-                        viol.push((format!("panic/observe-after-load/{d}"), format!("a getter / save_state panicked after an accepted load: {d}")));
+                    if o.get("dead").and_then(|d| d.as_str()).is_some() {
+                        // likewise beyond the property: the load itself returned Ok
+                        status.push_str(" beyond:play-panic");
                     }
                 }
             }
@@ -299,6 +367,9 @@ pub fn run(tier: Tier) -> i32 {
         stats.see("bases", &format!("{kind}:{name}"));
         if status.contains("ok") {
             stats.inc("accepted_by_a_loader");
+        }
+        if status.contains("beyond:play-panic") {
+            stats.inc("beyond_property::accepted_damaged_input_panics_when_played");
         }
         for v in rest.split('\u{3}').filter(|s| !s.is_empty()) {
             let (c, w) = v.split_once('\u{1}').unwrap_or((v, ""));
